@@ -111,6 +111,7 @@ type c09TmplOpt struct {
 	MixinParam                             bool // endpoint parameters typed by mixed-in types
 	Mixin, Collector, Views, Nested, Names bool
 	Deep                                   bool // deeply nested statements, expressions and inline types
+	Long                                   bool // very long string values (one JSON line of tens to hundreds of KB)
 	MinChain                               int // minimal mixin chain depth (0 = 1)
 	// avoid the shapes of known findings (decided by the caller through knownActive)
 	NoCollectorArr, NoMixinDisorder, NoQuoteColonName bool
@@ -448,6 +449,50 @@ func c09GenTmpl(t *rapid.T, o c09TmplOpt) c09Tmpl {
 			w.l(2+i, fmt.Sprintf("L%d <:", i))
 		}
 		w.l(2+nt, "leaf <: int")
+		w.l(0, "")
+	}
+	if o.Long {
+		// Nothing bounds the length of a string value (embedded licence texts, schemas, documentation);
+		// writers and readers that work line by line or through fixed buffers meet their limits here.
+		size := func(label string) int {
+			switch rapid.IntRange(0, 3).Draw(t, label+"band") {
+			case 0:
+				return rapid.IntRange(1000, 9000).Draw(t, label)
+			case 1:
+				return rapid.IntRange(65000, 66200).Draw(t, label) // around 64 KiB
+			case 2:
+				return rapid.IntRange(66201, 140000).Draw(t, label)
+			}
+			return rapid.IntRange(140001, 300000).Draw(t, label)
+		}
+		n := size("longval")
+		cl("tmpl_long_value")
+		switch {
+		case n > 140000:
+			cl("tmpl_long_value>140K")
+		case n > 66200:
+			cl("tmpl_long_value_66K..140K")
+		case n >= 65000:
+			cl("tmpl_long_value_around_64KiB")
+		}
+		unit := pick(t, []string{"lorem ipsum ", "x", "0123456789", "é", "a b  c "}, "longunit")
+		val := strings.Repeat(unit, n/len(unit)+1)[:n]
+		for len(val) > 0 && val[len(val)-1]&0xC0 == 0x80 { // do not cut a multi-byte rune
+			val = val[:len(val)-1]
+		}
+		val = strings.TrimRight(val, "\xc3")
+		w.l(0, "LongApp:")
+		switch rapid.IntRange(0, 2).Draw(t, "longwhere") {
+		case 0:
+			w.l(1, "@note = \""+val+"\"")
+			w.l(1, "Ep: ...")
+		case 1:
+			w.l(1, "Ep [note=\""+val+"\"]: ...")
+		default:
+			w.l(1, "!type T:")
+			w.l(2, "f <: string:")
+			w.l(3, "@note = \""+val+"\"")
+		}
 		w.l(0, "")
 	}
 	out.Text = w.sb.String()
